@@ -110,6 +110,9 @@ theorem cQueue_cons (r : Nat) (q : Queued) (qs : List Queued) :
   | none => simp [cQueue, List.filterMap_cons, hq]
   | some x => simp [cQueue, List.filterMap_cons, hq, List.count_cons]
 
+theorem cPend_advance (r : Nat) (s : State) (dt : Int) : cPend r (advance s dt).pending = cPend r s.pending := by
+  simp [cPend, advance, List.map_map, Function.comp_def]
+
 theorem sweep_acc (s : State) (log : Done) (h : Acc s log) : Acc (sweep s).1 (log ++ (sweep s).2) := by
   intro r
   have := h r
@@ -235,6 +238,17 @@ theorem step_acc (s : State) (log : Done) (op : Op) (h : Acc s log) :
     simp only [z1, z2]
     omega
   | errmsg => intro r; simpa [step] using h r
+  | wake =>
+    have h1 := sweep_acc s log h
+    simp only [step, wake]
+    cases hn : nextTimeout (sweep s).1 with
+    | none => simpa [hn] using h1
+    | some t =>
+      simp only [hn]
+      have h2 : Acc (advance (sweep s).1 t) (log ++ (sweep s).2) := by
+        intro r; have := h1 r; rw [cPend_advance]; exact this
+      have h3 := sweep_acc _ _ h2
+      simpa [List.append_assoc] using h3
 
 theorem run_acc (ops : List Op) (s : State) (log : Done) (h : Acc s log) :
     Acc (runLog s ops).1 (log ++ (runLog s ops).2) := by
@@ -304,6 +318,13 @@ theorem step_closedEmpty (s : State) (op : Op) (h : ClosedEmpty s) : ClosedEmpty
   cases op with
   | close st => simp [step, close]
   | errmsg => simpa [step] using h hc
+  | wake =>
+    have hcl : (step s .wake).1.closed = s.closed := by
+      simp only [step, wake]
+      cases nextTimeout (sweep s).1 <;> rfl
+    rw [hcl] at hc
+    have ⟨hp, hq⟩ := h hc
+    simp [step, wake, sweep, nextTimeout, minDeadline, hp, hq]
   | submit late =>
     simp only [step] at hc ⊢
     rw [submit_closed] at hc
@@ -453,6 +474,17 @@ theorem right_recipient (s : State) (hf : ChunksFiled s) (op : Op) (q m : Nat) (
     · cases h
     · cases hq : q'.req <;> simp [hq] at h
   | errmsg => simp [step] at h
+  | wake =>
+    exfalso
+    have hsw : ∀ (x : State) (y : Nat × Res), y ∈ (sweep x).2 → y ≠ (q, Res.response m pl) := by
+      intro x y hy; simp only [sweep, List.mem_map] at hy
+      obtain ⟨p, _, rfl⟩ := hy; simp
+    simp only [step, wake] at h
+    cases hn : nextTimeout (sweep s).1 with
+    | none => simp only [hn] at h; exact hsw _ _ h rfl
+    | some t =>
+      simp only [hn, List.mem_append] at h
+      rcases h with h | h <;> exact hsw _ _ h rfl
   | chunk c =>
     simp only [step] at h
     unfold chunk at h
@@ -570,6 +602,18 @@ theorem step_chunksFiled (s : State) (op : Op) (h : ChunksFiled s) : ChunksFiled
       · exact hrem
   | close st => intro p hp; simp [step, close] at hp
   | errmsg => exact h
+  | wake =>
+    have hsw : ∀ x : State, ChunksFiled x → ChunksFiled (sweep x).1 := by
+      intro x hx p hp; exact hx p (List.mem_filter.mp hp).1
+    have hadv : ∀ (x : State) (t : Int), ChunksFiled x → ChunksFiled (advance x t) := by
+      intro x t hx p hp c hc
+      simp only [advance, List.mem_map] at hp
+      obtain ⟨p0, hp0, rfl⟩ := hp
+      exact hx p0 hp0 c hc
+    simp only [step, wake]
+    cases nextTimeout (sweep s).1 with
+    | none => exact hsw s h
+    | some t => exact hsw _ (hadv _ t (hsw s h))
 
 theorem run_chunksFiled (ops : List Op) (s : State) (h : ChunksFiled s) : ChunksFiled (runLog s ops).1 := by
   induction ops generalizing s with
@@ -582,7 +626,7 @@ theorem init_chunksFiled (a b : Nat) : ChunksFiled (init a b) := by
 /-- **timeout_only_after_deadline**: a request is completed with BadTimeout only when its own
 deadline has passed (or the transport itself is being closed with that status). -/
 theorem timeout_only_after_deadline (s : State) (op : Op) (q : Nat)
-    (h : (q, Res.err BadTimeout) ∈ (step s op).2) :
+    (hw : op ≠ .wake) (h : (q, Res.err BadTimeout) ∈ (step s op).2) :
     (∃ p ∈ s.pending, p.req = q ∧ p.expired = true) ∨ op = .close BadTimeout := by
   have sweepCase : (q, Res.err BadTimeout) ∈ (sweep s).2 → ∃ p ∈ s.pending, p.req = q ∧ p.expired = true := by
     intro h
@@ -608,6 +652,7 @@ theorem timeout_only_after_deadline (s : State) (op : Op) (q : Nat)
     simp only [step, submitNoResponse] at h
     split at h <;> simp [BadTimeout, BadConnectionClosed] at h
   | errmsg => simp [step] at h
+  | wake => exact absurd rfl hw
   | close st =>
     right
     simp only [step, close, List.mem_append, List.mem_map, List.mem_filterMap, Prod.mk.injEq, Res.err.injEq] at h
@@ -736,6 +781,20 @@ theorem step_ridsOk (s : State) (op : Op) (h : RidsOk s) : RidsOk (step s op).1 
   | submitNoResponse late => simp only [step, submitNoResponse]; split <;> exact h
   | sweep => exact ridsOk_sub s _ h (List.filter_sublist)
   | errmsg => exact h
+  | wake =>
+    have hsw : ∀ x : State, RidsOk x → RidsOk (sweep x).1 := fun x hx => ridsOk_sub x _ hx (List.filter_sublist)
+    have hadv : ∀ (x : State) (t : Int), RidsOk x → RidsOk (advance x t) := by
+      intro x t hx
+      refine ⟨?_, ?_⟩
+      · simpa [advance, List.map_map, Function.comp_def] using hx.1
+      · intro p hp
+        simp only [advance, List.mem_map] at hp
+        obtain ⟨p0, hp0, rfl⟩ := hp
+        exact hx.2 p0 hp0
+    simp only [step, wake]
+    cases nextTimeout (sweep s).1 with
+    | none => exact hsw s h
+    | some t => exact hsw _ (hadv _ t (hsw s h))
   | close st => exact ⟨by simp [step, close], by intro p hp; simp [step, close] at hp⟩
   | setDeadline rid d =>
     simp only [step, setDeadline]
@@ -805,6 +864,40 @@ theorem run_ridsOk (ops : List Op) (s : State) (h : RidsOk s) : RidsOk (runLog s
 theorem rids_unique (a b : Nat) (ops : List Op) :
     ((runLog (init a b) ops).1.pending.map (·.rid)).Pairwise (· < ·) :=
   (run_ridsOk ops (init a b) ⟨by simp [init], by intro p hp; simp [init] at hp⟩).1
+
+/-- **wake_on_schedule**: when the transport sleeps until the instant `next_timeout` gave it and looks
+again, exactly the requests whose deadline is that instant time out — nobody earlier (everything
+still pending was due at that instant or later) and nobody is left over whose deadline has passed. -/
+theorem wake_on_schedule (s : State) (t : Int) (ht : nextTimeout (sweep s).1 = some t) (q : Nat) (r : Res) :
+    (q, r) ∈ (sweep (advance (sweep s).1 t)).2 ↔
+      r = Res.err BadTimeout ∧ ∃ p ∈ (sweep s).1.pending, p.req = q ∧ p.deadline = t := by
+  have ⟨_, _, hall⟩ := next_timeout_earliest (sweep s).1 t ht
+  have hne : ∀ p ∈ (sweep s).1.pending, p.expired = false := by
+    intro p hp; simp only [sweep, List.mem_filter] at hp; simpa using hp.2
+  constructor
+  · intro h
+    simp only [sweep, advance, List.mem_map, List.mem_filter, Prod.mk.injEq] at h
+    obtain ⟨p', ⟨⟨p, hp, rfl⟩, he⟩, hq, hr⟩ := h
+    refine ⟨hr.symm, p, ?_, hq, ?_⟩
+    · simpa [sweep, List.mem_filter] using hp
+    · have h1 := hall p (by simpa [sweep, List.mem_filter] using hp) (hne p (by simpa [sweep, List.mem_filter] using hp))
+      simp only [Pend.expired, decide_eq_true_eq] at he
+      omega
+  · rintro ⟨rfl, p, hp, hq, hd⟩
+    simp only [sweep, advance, List.mem_map, List.mem_filter, Prod.mk.injEq]
+    refine ⟨{ p with deadline := p.deadline - t }, ⟨⟨p, by simpa [sweep, List.mem_filter] using hp, rfl⟩, ?_⟩, hq, trivial⟩
+    simp [Pend.expired, hd]
+
+/-- after the wake-up nothing overdue is left -/
+theorem wake_leaves_nothing_overdue (s : State) (p : Pend) (hp : p ∈ (wake s).1.pending) : 0 < p.deadline := by
+  have key : ∀ x : State, ∀ p ∈ (sweep x).1.pending, 0 < p.deadline := by
+    intro x p hp
+    simp only [sweep, List.mem_filter, Pend.expired, Bool.not_eq_true', decide_eq_false_iff_not] at hp
+    omega
+  simp only [wake] at hp
+  cases hn : nextTimeout (sweep s).1 with
+  | none => simp only [hn] at hp; exact key s p hp
+  | some t => simp only [hn] at hp; exact key _ p hp
 
 /-! ### Non-vacuity -/
 
